@@ -7,6 +7,8 @@ import (
 	"path/filepath"
 	"strings"
 	"time"
+
+	"verif/sim/instr"
 )
 
 type propCfg struct {
@@ -83,6 +85,42 @@ var props = map[string]*propCfg{
 	},
 }
 
+var simComponents = map[string][]string{
+	"real": {"gnet engine, event loops, acceptor, connection, load balancer, registry (package gnet)", "pkg/netpoll (Poller, default and poll_opt)", "pkg/queue", "pkg/buffer/*", "pkg/pool/byteslice", "pkg/pool/ringbuffer", "pkg/socket", "pkg/io", "golang.org/x/sync/errgroup", "context, timers (fake clock of the synctest bubble)"},
+	"stub": {"Linux kernel: descriptor table, stream sockets, listeners, epoll, eventfd (sim/vsys)", "goroutine scheduling (sim/vsched: one task released at a time, seeded choice)", "sync/atomic call sites are scheduling points (sim/vatomic, real atomics underneath)", "ants worker pool (one task per submission)", "remote peers and application goroutines (scripted from the plan)", "Go map iteration order (seed-ordered)"},
+}
+
+var simAssumptions = []string{
+	"the simulated kernel only produces behaviours Linux can produce (checked against the real kernel by `check selftest-kernel`); the real TCP stack is not exercised",
+	"preemption is explored at simulated syscalls, instrumented atomics, channel wake-ups and callbacks, not between arbitrary plain memory accesses",
+	"the harness is a well-behaved user of the API (DESIGN.md 3.0); completeness and liveness are judged only at quiescent points after faults stop",
+	"seeded sampling of plans, schedules and faults: a clean batch is evidence, not proof",
+}
+
+func simProp(rule string, probes ...string) *propCfg {
+	return &propCfg{engine: "vsim", instrumented: true, level: "exploration", quickS: 25, thoroughS: 420, rule: rule,
+		components: simComponents, assumptions: simAssumptions, wantProbes: probes,
+		variantsQ: []string{"default"}, variantsT: []string{"default", "poll_opt", "gc_opt", "poll_opt+gc_opt"}}
+}
+
+func init() {
+	sig := " distinct = distinct schedule signatures (hash of the (task, site) sequence at decisions with more than one option)"
+	props["C01"] = simProp("whole-engine runs: 1..10 scripted peers sending attributable byte streams in seeded segmentations (1 byte, read-buffer size +-1, data+FIN in one arrival) against handlers that consume with Read/Next/Peek/Discard/WriteTo in seeded amounts; LT/ET/ET+chunk x 1..4 loops x reactor/reuseport x tcp/tcp6/unix; content, conservation (consumed+InboundBuffered==bytes the kernel handed over) checked inside every callback, offered-before-OnClose at orderly closes, no stranded kernel input at quiescence; non-trivial = a handler left a remainder that was stitched with fresh bytes, or data and FIN arrived together;"+sig,
+		"leftover-present", "partial-consumption", "data+FIN-in-one-arrival", "wire-deliveries")
+	props["C02"] = simProp("whole-engine runs with write-heavy handler scripts (OnOpen reply, Write, Writev up to 1500 segments, ReadFrom+Flush, AsyncWrite(v) from callbacks and from user tasks) against peers that stall, trickle and drain, small send buffers and buffer squeeze; the peer-side stream must be a prefix of the accepted operations in effect order at all times and complete at quiescence for connections that stay open with a reading peer; OutboundBuffered checked against the kernel's count; non-trivial = at least one EAGAIN or short write;"+sig,
+		"write-EAGAIN", "write-short", "writev-multi-segment", "writev>1024-segments")
+	props["C03"] = simProp("whole-engine runs with 1..3 application tasks issuing AsyncWrite/AsyncWritev/Wake/Close/CloseWithCallback/Execute against idle and busy loops with every atomic of the poller/queue a scheduling point in part of the runs; at quiescence with the engine running every accepted request has run exactly once on the owning loop's task, per-user order of asynchronous writes, one OnTraffic per Wake; non-trivial = requests executed and more than 5 contended decisions;"+sig,
+		"async-executed", "wake-traffic", "epoll_wait-blocked")
+	props["C04"] = simProp("whole-engine runs mixing every close cause (peer FIN/RST, Close action, Close()/CloseWithCallback from users, EventLoop.Close, write failure, shutdown) and late requests, with canaries re-opening freed descriptor numbers; per-connection state machine (OnOpen once before OnTraffic, OnClose once iff opened, nothing after), OnClose error nil iff a local cause had been requested, CountConnections within the window of opened-closed; non-trivial = at least one connection closed;"+sig,
+		"fd-number-reused", "canary-grabbed", "close-sent-RST")
+	props["C05"] = simProp("same runs as C03/C04 with the executing task recorded for every callback, runnable and kernel call: one task per connection for life, no overlapping callbacks on one loop (nested OnClose from the handler's own call is legal), every read/write/epoll_ctl/close on a connection's descriptor issued by its loop's task, no panic from any documented concurrency-safe call made at arbitrary moments; memory-level data races are NOT decided (see level_note);"+sig,
+		"async-executed")
+	props["C06"] = simProp("whole-engine runs with the shutdown source (Engine.Stop, gnet.Stop, Shutdown action from OnBoot/OnOpen/OnTraffic/OnClose/OnTick) and moment (any scheduler step: mid-accept, mid-read, queued async tasks, concurrent second Stop) drawn from the seed; Run returns nil within the drain bound (hang = quiescent without return), every opened connection got OnClose before, OnShutdown exactly once, no callback afterwards during a post-mortem phase in which timers keep firing; non-trivial = connections were open;"+sig,
+		"accepted")
+	props["C07"] = simProp("same runs as C04/C06; oracle = the simulated kernel's ledger: any framework call on a closed or foreign descriptor number is a violation at that step (canaries grab freed numbers at once), every framework-created descriptor closed exactly once by the time Run returns, unix-socket file removed; non-trivial = a descriptor number was re-used or a connection closed;"+sig,
+		"fd-number-reused", "canary-grabbed")
+}
+
 var selftests = map[string]func(tier string) int{}
 
 // buildEngine compiles the engine's test binary against the current working
@@ -96,7 +134,7 @@ func buildEngine(pc *propCfg, variants []string, scratch string) ([]build, error
 		src := repoDir
 		tags := ""
 		if v != "default" {
-			tags = strings.ReplaceAll(v, "+", " ")
+			tags = strings.TrimSpace(strings.ReplaceAll(strings.ReplaceAll(strings.ReplaceAll(" "+strings.ReplaceAll(v, "+", " ")+" ", " small ", " "), " default ", " "), "  ", " "))
 		}
 		if pc.instrumented {
 			var err error
@@ -126,13 +164,70 @@ func buildEngine(pc *propCfg, variants []string, scratch string) ([]build, error
 		cmd.Dir = verifDir
 		cmd.Env = goEnv()
 		if b, err := cmd.CombinedOutput(); err != nil {
-			return nil, fmt.Errorf("go %s: %v\n%s", strings.Join(args, " "), err, b)
+			// a tree that no longer compiles only because of an injected
+			// export file (renamed variable) is rebuilt without the exports
+			if pc.instrumented && strings.Contains(string(b), "zz_verif_export") {
+				_ = filepath.Walk(src, func(p string, info os.FileInfo, werr error) error {
+					if werr == nil && !info.IsDir() && info.Name() == "zz_verif_export.go" {
+						_ = os.Remove(p)
+					}
+					return nil
+				})
+				cmd2 := exec.Command(goBin(), args...)
+				cmd2.Dir, cmd2.Env = verifDir, goEnv()
+				if b2, err2 := cmd2.CombinedOutput(); err2 != nil {
+					return nil, fmt.Errorf("go %s: %v\n%s", strings.Join(args, " "), err2, b2)
+				}
+				fmt.Fprintln(os.Stderr, "note: export files did not compile against this tree; built without them (global resets degraded)")
+			} else {
+				return nil, fmt.Errorf("go %s: %v\n%s", strings.Join(args, " "), err, b)
+			}
 		}
 		out = append(out, build{variant: v, bin: bin})
 	}
 	return out, nil
 }
 
+// instrument copies the working tree of the repository into the scratch
+// directory and rewrites it for the given variant ("default", "poll_opt",
+// "gc_opt", "poll_opt+gc_opt", each optionally "+small" for the small-knob
+// flavour).
 func instrument(scratch, variant string) (string, error) {
-	return "", fmt.Errorf("instrumented engines are not available yet")
+	dst := filepath.Join(scratch, "src-"+variant)
+	var tags []string
+	small := false
+	for _, t := range strings.Split(variant, "+") {
+		switch t {
+		case "default", "":
+		case "small":
+			small = true
+		default:
+			tags = append(tags, t)
+		}
+	}
+	rep, err := instr.Instrument(repoDir, dst, instr.Options{Tags: tags, SmallKnobs: small, Inject: injectFiles()})
+	if err != nil {
+		return "", fmt.Errorf("instrumenter: %v", err)
+	}
+	if os.Getenv("VERIF_VERBOSE") != "" {
+		fmt.Fprintf(os.Stderr, "instrumented %d files for %s: %v skipped=%v\n", rep.Files, variant, rep.Rewrites, rep.Skipped)
+	}
+	return dst, nil
+}
+
+func injectFiles() map[string]string {
+	out := map[string]string{}
+	root := filepath.Join(verifDir, "inject")
+	_ = filepath.Walk(root, func(p string, info os.FileInfo, err error) error {
+		if err != nil || info.IsDir() || !strings.HasSuffix(p, ".go.txt") {
+			return nil
+		}
+		rel, _ := filepath.Rel(root, p)
+		b, rerr := os.ReadFile(p)
+		if rerr == nil {
+			out[strings.TrimSuffix(rel, ".txt")] = string(b)
+		}
+		return nil
+	})
+	return out
 }
